@@ -22,6 +22,7 @@ CONSTANTS
   ClosSizes = {}
   TrackLive = TRUE
   EnableTryFill = FALSE
+  TwSlots <- TwNone
   MaxDepth = 3
 INVARIANTS
   Emit
